@@ -107,10 +107,27 @@ PlacedSign(K, S, sg, s, off, counts) ==
 Ambiguous(K, s) == IF s <= 0 THEN {}
                    ELSE {j \in 1..Len(K) : K[j].sg # 0 /\ Idx(K[j].alt, s) # Idx(K[j].b, s)}
 
+(* cheap NECESSARY conditions of the search below (implied by it, so they change no verdict):  *)
+(* per sign the totals agree, every index holds at least the values that can only be there   *)
+(* and at most those that may be there.  A plainly wrong point is rejected by them without   *)
+(* enumerating the subsets of the ambiguous values (2^n for n values near a boundary).        *)
+MayBeAt(v, s, i) == Idx(v.b, s) = i \/ (s > 0 /\ Idx(v.alt, s) = i)
+MustBeAt(v, s, i) == Idx(v.b, s) = i /\ (s <= 0 \/ Idx(v.alt, s) = i)
+PlausibleSign(K, sg, s, off, counts) ==
+  LET J == Pick(K, sg)
+      dom == {Idx(K[j].b, s) : j \in J} \cup {Idx(K[j].alt, s) : j \in J}
+               \cup {off + t - 1 : t \in {t \in 1..Len(counts) : counts[t] # 0}}
+  IN /\ SumSeq(counts) = Cardinality(J)
+     /\ \A i \in dom : LET c == ObsCount(off, counts, i) IN
+            /\ Cardinality({j \in J : MustBeAt(K[j], s, i)}) <= c
+            /\ c <= Cardinality({j \in J : MayBeAt(K[j], s, i)})
+
 Placed(o, K) ==
-  \E S \in SUBSET Ambiguous(K, o.scale) :
-     /\ PlacedSign(K, S, 1, o.scale, o.poff, o.pos)
-     /\ PlacedSign(K, S, -1, o.scale, o.noff, o.neg)
+  /\ PlausibleSign(K, 1, o.scale, o.poff, o.pos)
+  /\ PlausibleSign(K, -1, o.scale, o.noff, o.neg)
+  /\ \E S \in SUBSET Ambiguous(K, o.scale) :
+        /\ PlacedSign(K, S, 1, o.scale, o.poff, o.pos)
+        /\ PlacedSign(K, S, -1, o.scale, o.noff, o.neg)
 
 ExpoClauses(o, H, ms, n, prev, quant, nosum, nominmax) ==
   LET K == Keep(H, n) IN
